@@ -22,7 +22,13 @@ def decScalar (s : String) : Val :=
   else if s == "b0" then .bool false
   else
     let body := decStr (s.drop 2).toString
-    if s.startsWith "N:" then .num body
+    if s.startsWith "D:" then
+      -- a datetime by its fields `y,mo,d,h,mi,s,us,off` (off = UTC offset in minutes, or `-` for a naive one)
+      match ((s.drop 2).toString.splitOn ",") with
+      | [y, mo, d, h, mi, sec, us, off] =>
+        .str (dtText y.toNat! mo.toNat! d.toNat! h.toNat! mi.toNat! sec.toNat! us.toNat! (if off == "-" then none else off.toInt?))
+      | _ => .str []
+    else if s.startsWith "N:" then .num body
     else if s.startsWith "X:" then .special body
     else .str body
 
